@@ -74,6 +74,41 @@ def dependency_holds(fx, dep):
     return _DEP[dep]
 
 
+def value_size_unbounded_reasons(fx):
+    """The recursion over value trees (constant folding, transformers, registration, hashing, drop) and the arithmetic on their
+    memoised sizes are bounded by the value size limit and by nothing else. Reasons why that bound does not hold:
+    values built without the limit (C18 R18.3 sites), and a limit that the configuration can raise without any cap."""
+    from .. import core
+    import importlib
+
+    reasons = []
+    mod = importlib.import_module("slx.rules.c18")
+    r = core.Report("C18", "quick", 0)
+    r.finish = lambda *a, **k: 0
+    try:
+        mod.check(fx, r, "quick")
+        for v in r.violations:
+            if v["rule"] == "R18.3" and "|nolimit:" in v["key"]:
+                reasons.append(("nolimit:" + v["key"].split("|nolimit:", 1)[1], v["where"], v["msg"]))
+    except Exception as e:  # fail closed
+        reasons.append(("c18-engine", "-", f"the size-limit audit (C18) crashed: {e}"))
+    # is the configured limit capped anywhere between the configuration and the cull test?
+    capped = False
+    where = "-"
+    for b in fx.fn_bodies():
+        if not b.get("hir"):
+            continue
+        if b.get("impl_self") == "vm::Config" or F.strip_generics(b["def"]).startswith("vm::value::SymbolicValue::"):
+            for n, ps in F.walk(b["hir"]["value"]):
+                if n.get("k") == "MethodCall" and n["method"] in ("min", "clamp") and "value_size_limit" in str(T.term(n, T.Env())):
+                    capped = True
+                if n.get("k") == "Field" and n.get("field") == "value_size_limit" and n.get("adt") == "vm::Config":
+                    where = F.loc(b["span"])
+    if not capped:
+        reasons.append(("limit-uncapped", where, "the value size limit is taken from the configuration as it is (no upper cap): a configuration with a large positive limit lets value trees become deep enough to overflow the native stack in the recursive traversals and large enough for the memoised sizes to overflow"))
+    return reasons
+
+
 def reachable_bodies(fx, cg):
     entries = [b["def"] for b in fx.fn_bodies() if (b.get("impl_self") or "").startswith("extractor::Extractor<") and b.get("vis") == "Public"]
     entries += [n for n in ("extractor::new", "new") if n in fx.bodies]
@@ -644,6 +679,17 @@ def check(fx, rep, tier):
             strong(v)
     rec = [c for c in sccs if len(c) > 1 or c[0] in cg.edges.get(c[0], ())]
     rep.extra["recursive_components"] = len(rec)
+    tree_rows = [k for k in rrows if rrows.get(k) and rrows.get(k)[1] == "tree"]
+    if tree_rows:
+        for key, where, msg in value_size_unbounded_reasons(fx):
+            rep.oblige(
+                False,
+                "R01.3",
+                f"value-depth-unbounded:{key}",
+                where,
+                f"{len(tree_rows)} recursive traversals of value trees (and the additions on their memoised sizes) are bounded only by the value size limit, which does not hold here: {msg}",
+            )
+        rep.inst("R01.3", "value-depth-bound", sample={"rule": "R01.3", "tree_recursions_depending_on_the_value_size_limit": len(tree_rows)})
     for comp in sorted(rec, key=lambda c: sorted(c)[0]):
         members = sorted(F.strip_generics(x) if not x.startswith("<") else x for x in comp)
         key = members[0] + (f"(+{len(members)-1})" if len(members) > 1 else "")
